@@ -302,4 +302,4 @@ PROPS = {
 # properties not (yet) claimed; kept current as checks are added
 NOT_APPLICABLE = {k: "check not built yet in this session (planned, see DESIGN.md section 4)" for k in
                   ["C%02d" % i for i in range(1, 21)] if k not in PROPS}
-HOOK_COMMITS = []
+HOOK_COMMITS = ["fc8701b"]
